@@ -351,7 +351,7 @@ def gen_random(rng, index):
     p_perturb = rng.choice([0.0, 0.05, 0.1, 0.2, 0.35])
     p_reissue = rng.choice([0.3, 0.6, 0.8])
     p_stay = rng.choice([0.0, 0.3, 0.6])
-    cache_max = rng.choice([None, None, None, 1, 2, 8, 64])
+    cache_max = rng.choice([None, None, None, 0, 1, 2, 8, 64])
     paths = rng.sample(SWITCH_PATHS, rng.randint(1, len(SWITCH_PATHS)))
     handles = {c: [] for c in range(nclients)}
     issued = []
@@ -1047,8 +1047,8 @@ class Sim(object):
         world.set_env(world.ENV_CAL, None)
         world.set_env(world.ENV_REF, None)
         trace = self.trace
-        if self.solo is None and trace.get("cache_max"):
-            world.shrink_caches(trace["cache_max"])
+        if self.solo is None and trace.get("cache_max") is not None:
+            world.shrink_caches(trace["cache_max"])   # 0 = no memoisation
         if self.solo is not None:
             with kernel.guarded():
                 data.Calendar.default().set_mode(self.clients[self.solo].sp)
@@ -1256,7 +1256,7 @@ def check_trace_full(trace, alarm=None):
     counters["probe.cache_hits"] = inter["stats"].get("cache_hits", 0)
     if inter["stats"].get("evicting_caches"):
         counters["probe.evicting_caches"] = inter["stats"]["evicting_caches"]
-    if trace.get("cache_max"):
+    if trace.get("cache_max") is not None:
         counters["arm.cache_shrink_runs"] = 1
     counters["solo_replays"] = len(used)
     dig = kernel.digest([inter["transcripts"], inter["violations"], solos])
@@ -1308,7 +1308,7 @@ def prune(trace):
 
 def shrink_candidates(trace):
     """Simpler variants of a failing trace."""
-    if trace.get("cache_max"):
+    if trace.get("cache_max") is not None:
         t = dict(trace)
         t["cache_max"] = None
         yield t
